@@ -614,21 +614,29 @@ impl<T: TypeConfig> Transport<T> for SimTransport<T> {
         _retry: &InstallSnapshotBackoffPolicy,
         _membership: Arc<MOF<T>>,
     ) -> Result<mpsc::Receiver<SnapshotChunk>> {
-        let ep = self
-            .net
-            .request_leg(self.my_id, leader_id)
-            .await
-            .map_err(|s| NetworkError::TonicStatusError(Box::new(s)))?;
+        // a gRPC channel gives up on an unreachable peer (connect / request timeout): a
+        // blackholed leader must not park the caller forever
+        let connect = Duration::from_millis(2000);
+        let ep = match tokio::time::timeout(connect, self.net.request_leg(self.my_id, leader_id)).await {
+            Ok(r) => r.map_err(|s| NetworkError::TonicStatusError(Box::new(s)))?,
+            Err(_) => {
+                return Err(NetworkError::TonicStatusError(Box::new(Status::unavailable("sim: connect timeout"))).into());
+            }
+        };
         let (chunk_tx, mut chunk_rx) = mpsc::channel::<Arc<SnapshotChunk>>(32);
         let (startup_tx, startup_rx) = tokio::sync::oneshot::channel();
         ep.event_tx
             .send(InboundEvent::StreamSnapshot(ack_rx, chunk_tx, startup_tx))
             .await
             .map_err(|_| NetworkError::ResponseChannelClosed)?;
-        match startup_rx.await {
-            Ok(Ok(())) => {}
-            Ok(Err(s)) => return Err(NetworkError::TonicStatusError(Box::new(s)).into()),
-            Err(_) => return Err(NetworkError::ResponseChannelClosed.into()),
+        let startup_timeout = Duration::from_millis(ep.cfg.raft.general_raft_timeout_duration_in_ms);
+        match tokio::time::timeout(startup_timeout, startup_rx).await {
+            Ok(Ok(Ok(()))) => {}
+            Ok(Ok(Err(s))) => return Err(NetworkError::TonicStatusError(Box::new(s)).into()),
+            Ok(Err(_)) => return Err(NetworkError::ResponseChannelClosed.into()),
+            Err(_) => {
+                return Err(NetworkError::TonicStatusError(Box::new(Status::deadline_exceeded("sim: stream_snapshot startup timeout"))).into());
+            }
         }
         let (tx, rx) = mpsc::channel(32);
         tokio::spawn(async move {
